@@ -562,3 +562,21 @@ Proof.
   - unfold batch_insert_into, finish_batch in H. destruct (batch_insert_into_loop _ _); [discriminate|]. injection H as <- _. reflexivity.
   - unfold batch_insert in H. destruct (batch_insert_loop _ _ _); [discriminate|]. injection H as <- _. reflexivity.
 Qed.
+
+(* transform_qubits keeps every uid in place *)
+Lemma cnt_map_op u f m : cnt u (map (map_op f) m) = cnt u m.
+Proof. unfold cnt. induction m as [|o r IH]; simpl; [reflexivity|]. destruct (Z.eqb (uid o) u); simpl; rewrite IH; reflexivity. Qed.
+
+Lemma map_moments_uids f ms : forall ms', map_moments f ms = Some ms' -> map (map uid) ms' = map (map uid) ms.
+Proof.
+  induction ms as [|m r IH]; intros ms' H; simpl in H; [injection H as <-; reflexivity|].
+  destruct (forallb _ _); [|discriminate]. destruct (mk_moment _) as [m'|] eqn:Em; [|discriminate].
+  destruct (map_moments f r) as [r'|]; [|discriminate]. injection H as <-. simpl. rewrite (IH r' eq_refl).
+  apply mk_moment_eq in Em. subst m'. f_equal. rewrite map_map. reflexivity.
+Qed.
+
+Theorem transform_keeps_uids c f c' z : transform_qubits c f = (c', inl z) -> map (map uid) (moms c') = map (map uid) (moms c).
+Proof.
+  unfold transform_qubits. intros H. destruct (map_moments f (moms c)) as [ms|] eqn:E; [|discriminate].
+  injection H as <- _. simpl. eapply map_moments_uids. exact E.
+Qed.
